@@ -259,8 +259,9 @@ theorem read_blocks (lower : Bool) (w kw : Nat) (bs : List Block) :
       obtain ⟨o, ho, hread⟩ := read_item lower w kw it (hok it (by simp)) p n os hcur hnew
       simp only [List.flatMap_cons, blockLines]
       rw [readLines_append lower p _ _ _ hread]
-      obtain ⟨p', h1, h2, h3⟩ := ih _ n (items ++ [it])
-        ⟨os ++ p.opt.toList, rfl, rfl, by simpa using rawItems_snoc _ _ o it hraw ho⟩
+      obtain ⟨p', h1, h2, h3⟩ := ih
+        { done := p.done, cur := some (n, os ++ p.opt.toList), opt := some o, indent := 0 } n (items ++ [it])
+        ⟨os ++ p.opt.toList, rfl, rfl, by simpa [Option.toList] using rawItems_snoc _ _ o it hraw ho⟩
         (fun x hx => hok x (by simp [hx])) (by simpa using hnd)
       exact ⟨p', h1, h2, by simpa [blockItems] using h3⟩
     | blank =>
